@@ -685,3 +685,63 @@ func oplSoup(r *rand.Rand) string {
 	}
 	return sb.String()
 }
+
+
+// oplCollideDoc: two namespaces whose names and relation names are chosen so that the
+// concatenations "namespace ++ sep ++ relation" (or "relation ++ sep ++ namespace") of a DECLARED
+// relation of one and of an UNDECLARED relation of the other coincide (Doc + sview = Docs + view);
+// the other namespace references its undeclared relation in one of the five reference forms.
+// With declared = true the relation is declared after all (the accepted twin).
+func oplCollideDoc(r *rand.Rand, declared bool) string {
+	word := func() string {
+		return pick(r, []string{"s", "x", "View", "er", "Set", "a1", "_b", "Q"})
+	}
+	x, y, z := pick(r, []string{"Doc", "A", "File", "Ns"}), word(), pick(r, []string{"view", "edit", "members", "z"})
+	sep := pick(r, []string{"", "", "_", "0"})
+	var n, rel string
+	if r.Intn(3) != 0 {
+		n, rel = x+sep+y, y+sep+z // x ++ (y sep z)  ==  (x sep y) ++ z  when the key is ns ++ sep ++ rel
+		if sep != "" {
+			n, rel = x+sep+y, y+sep+z
+		}
+	} else {
+		n, rel = y+sep+x, z+sep+y // (z sep y) ++ x  ==  z ++ (y sep x)  when the key is rel ++ sep ++ ns
+	}
+	decl := ""
+	if declared {
+		decl = z + ": User[], "
+	}
+	var xBody, nBody string
+	switch r.Intn(5) {
+	case 0:
+		xBody = fmt.Sprintf("related: { %s: User[] }", rel)
+		nBody = fmt.Sprintf("related: { %so: User[] }\n  permits = { p: (ctx: Context): boolean => this.related.%s.includes(ctx.subject) }", decl, z)
+	case 1:
+		xBody = fmt.Sprintf("related: { %s: User[] }", rel)
+		perm := ""
+		if declared {
+			perm = fmt.Sprintf("%s: (ctx: Context): boolean => this.related.o.includes(ctx.subject), ", z)
+		}
+		nBody = fmt.Sprintf("related: { o: User[] }\n  permits = { %sp: (ctx: Context): boolean => this.permits.%s(ctx) }", perm, z)
+	case 2:
+		xBody = fmt.Sprintf("related: { %s: User[], w: SubjectSet<%s, \"%s\">[] }", rel, n, z)
+		nBody = fmt.Sprintf("related: { %so: User[] }", decl)
+	case 3:
+		xBody = fmt.Sprintf("related: { %s: User[], par: %s[] }\n  permits = { q: (ctx: Context): boolean => this.related.par.traverse((p) => p.related.%s.includes(ctx.subject)) }", rel, n, z)
+		nBody = fmt.Sprintf("related: { %so: User[] }", decl)
+	default:
+		xBody = fmt.Sprintf("related: { %s: User[], par: %s[] }\n  permits = { q: (ctx: Context): boolean => this.related.par.traverse((p) => p.permits.%s(ctx)) }", rel, n, z)
+		perm := ""
+		if declared {
+			perm = fmt.Sprintf("\n  permits = { %s: (ctx: Context): boolean => this.related.o.includes(ctx.subject) }", z)
+		}
+		nBody = "related: { o: User[] }" + perm
+	}
+	classes := []string{
+		"class User implements Namespace {}",
+		fmt.Sprintf("class %s implements Namespace {\n  %s\n}", x, xBody),
+		fmt.Sprintf("class %s implements Namespace {\n  %s\n}", n, nBody),
+	}
+	r.Shuffle(len(classes), func(i, j int) { classes[i], classes[j] = classes[j], classes[i] })
+	return "import { Namespace, SubjectSet, Context } from \"@ory/keto-namespace-types\"\n" + strings.Join(classes, "\n") + "\n"
+}
